@@ -165,7 +165,7 @@ func checkC06(c *Ctx) {
 	}
 	// nextToken never returns SPACE: its result is the loop variable of a loop that runs while it is SPACE
 	if nf, fn := f.NF("nextToken"); fn != nil {
-		want := "if((len(p0) <= Token.end(p1)), newToken(var:New_TokenType_EOF, len(p0), 0), seq[assign($0 := scanTokenAt(p0, Token.end(p1))); for((); ($0.ttype == var:New_TokenType_SPACE); ()){seq[assign($0 = scanTokenAt(p0, Token.end($0)))]}] $0)"
+		want := nextTokenNF
 		nf2 := strings.ReplaceAll(nf, "(Token).end", "Token.end")
 		r.Check(canonDiag(nf2) == canonDiag(want), "C06.a", "nextToken", "never-returns-SPACE", c.Pos(f.M.Fset, fn.Decl.Pos()), "the returned token is the variable of a loop that continues while it is a SPACE token", "nextToken's closed form changed; "+diffHint(nf2, want))
 	} else {
@@ -184,6 +184,9 @@ func checkC06(c *Ctx) {
 	checkRelevantReviewedForms(c, f, "C06.z", "a layout primitive (line-end skipping, columns, offside stack, adjacency)",
 		primSet("psSkipEOL", "psNextNOL", "psCurCol", "psCurOffside", "insideOffside", "isEndOfBlock", "psPushOffside", "psPopOffside", "psNextNonEOLIsBinOp", "psIsNeighborLT", "tkzIsNeighborLT", "tkzNextNOL", "tkzNext"), 30)
 }
+
+// nextToken: the token after prev is what scanTokenAt scans at prev's end, SPACE tokens skipped; EOF at the end
+const nextTokenNF = "if((len(p0) <= Token.end(p1)), newToken(var:New_TokenType_EOF, len(p0), 0), seq[assign($0 := scanTokenAt(p0, Token.end(p1))); for((); ($0.ttype == var:New_TokenType_SPACE); ()){seq[assign($0 = scanTokenAt(p0, Token.end($0)))]}] $0)"
 
 func fieldOwner(f *FC, v *types.Var) string {
 	sc := f.M.Main().Types.Scope()
